@@ -18,7 +18,10 @@ CHECK = {
     "props": "Props/C13.v",
     "theorems": ["c13_owner_pointer_valid", "c13_unhinted_pointer_valid", "c13_anchor_valid", "c13_scan_sound",
                  "c13_disabled_owner", "c13_disabled_unhinted", "c13_no_compressible_component",
-                 "c13_srv_ch_a_components", "c13_uncompressible_plain"],
+                 "c13_srv_ch_a_components", "c13_uncompressible_plain",
+                 "c13_owner_pointer_into_label_starts", "c13_unhinted_pointer_into_label_starts",
+                 "c13_anchor_invariant_all_ops", "c13_message_pointers_valid_partial",
+                 "c13_message_pointers_valid", "c13_spec_pointer_rules_hold"],
     "allowed_axioms": [],
     "suites": [{
         "name": "writer",
@@ -47,24 +50,32 @@ CHECK = {
         "extraction: ExtrOcamlBasic only; OCaml 4.13.1 ocamlopt",
         "correspondence: checks/writer_gen.py, checks/writer_check.py, harness/src/bin/impl_c12.rs, ocaml/run_c12.ml, line diff in tools/qv.py",
         "tools/gen/writertab.py re-extracts the Rdata::components match and the components_as_* tables (c13_no_compressible_component is re-proved against them on every run)",
-        "not proved: preservation of the anchor invariant across whole RR operations (RDLENGTH back-patching), see docs/C13.md",
+        "the ghost set L of label starts and the ghost layout are existentially quantified in the theorems; L is characterised exactly (p_tight: the label starts of the layout's chunks)",
     ],
     "assumptions": ["names are valid Names (labels 1..63 octets, at most 127 labels)",
                     "hints obey the API contract (hint_contract; checked per case by the specification replay)",
-                    "the writer state satisfies nb and priors_ok (shown to be established by every name write; preservation across RR operations is tested, not proved)"],
+                    "octets < 256; TSIG times are 6 octets"],
 }
 
 MANIFEST = {
-    "level_text": ("Coq theorems (no axioms) about the model of src/message/writer.rs: for every writer state satisfying the "
-                   "anchor invariant and every hint obeying the API contract, a name write never panics and emits either the "
-                   "plain wire form or leading labels plus ONE pointer that leads strictly before the name to a label (never a "
-                   "pointer) from which the rest of the name decodes using only earlier octets; the two-name heuristic scan "
-                   "only reports real suffix matches; with compression disabled, and for uncompressible name components, the "
-                   "plain wire form is written; the regenerated component table has no compressible name outside RFC 1035's "
-                   "eleven types (so none in SRV, Chaosnet A, unknown types). PARTIAL: preservation of the anchor invariant "
-                   "across whole RR operations is not proved; the message-level statement is decided on every run by the "
-                   "extracted pointer-rule checker on the implementation's output, after an octet-for-octet differential run."),
+    "level_text": ("Coq theorems (no axioms) about the model of src/message/writer.rs, for ALL operation sequences obeying the hint "
+                   "contract: the anchor invariant (the ghost set L of label starts is closed under the decoding step; decoding "
+                   "from a member reads only message-body octets outside the RDLENGTH field being written, so header writes, "
+                   "RDLENGTH back-patching and appends never change it; every pointer met leads strictly backwards to another "
+                   "member; the three compression anchors and every live hint-vector slot are members standing for their names) "
+                   "is preserved by EVERY operation incl. rollbacks, clear_rrs and finish; every name write emits the plain wire "
+                   "form or k < |name| labels plus ONE pointer whose target is a member of the set as it was BEFORE this name "
+                   "(a label start of a name written earlier), strictly before the name, and the new set is the old one plus "
+                   "exactly this name's own label starts; MESSAGE LEVEL: the finished message has a layout of name chunks tied, "
+                   "in order, to the names of the abstract message of the succeeded operations, every chunk plain or labels + one "
+                   "such pointer, L being exactly the label starts of the chunks, AND the decoded finished message passes the "
+                   "specification's own pointer-rule checker (check_qs/check_rrs: every pointer leads strictly before its name to "
+                   "a label start of a name decoded before it; no pointer at all in items written with compression disabled); uncompressible RDATA names (SRV, Chaosnet A) are "
+                   "plain, RDATA without name components is raw octets, the regenerated component table has no compressible name "
+                   "outside RFC 1035's eleven types (and equals the RFC layout of the specification); with compression disabled a "
+                   "name write emits the plain form whatever the hint. The two-name heuristic scan only reports real suffix "
+                   "matches and never panics."),
     "level_note": ("Trusted: Coq kernel, extraction, the model's correspondence to the Rust code (differentially tested), the "
-                   "regenerated component tables."),
-    "technique": "machine-checked proof in Coq (lock-step scan invariant, per-name emission theorem) + model/implementation correspondence check + extracted pointer-rule oracle",
+                   "regenerated component tables. The extracted pointer-rule checker judge13 still runs on the implementation's output."),
+    "technique": "machine-checked proof in Coq (closure invariant of the label-start set, lock-step scan invariant, layout refinement) + model/implementation correspondence check + extracted pointer-rule oracle",
 }
